@@ -1271,7 +1271,10 @@ func genFormats(rng *vh.Rng, n int) []string {
 	return out
 }
 
+const leftGuard = "(?:^|[^0-9])"
+
 func stripGroup(rx string) string {
+	rx = strings.TrimPrefix(rx, leftGuard)
 	rx = strings.TrimPrefix(rx, "(?P<date>")
 	return strings.TrimSuffix(rx, ")")
 }
@@ -1289,7 +1292,7 @@ func sectionTerms(rng *vh.Rng) {
 		var im string
 		p := vh.Recover(func() {
 			lay, rx, loc, yr, nd := date.VerifFormatInternals(f)
-			im = fmt.Sprintf("layout=%s rx=%s loc=%s year=%s nodate=%s", vh.HxS(lay), vh.HxS(stripGroup(rx)), b2i(loc), b2i(yr), b2i(nd))
+			im = fmt.Sprintf("layout=%s rx=%s loc=%s year=%s nodate=%s guard=%s", vh.HxS(lay), vh.HxS(stripGroup(rx)), b2i(loc), b2i(yr), b2i(nd), b2i(strings.HasPrefix(rx, leftGuard)))
 		})
 		if p != "" {
 			im = "panic"
